@@ -1676,7 +1676,11 @@ func (x *Exec) assignedLocals(n ast.Node) []*types.Var {
 			return
 		}
 		if v.Pos() >= n.Pos() && v.Pos() <= n.End() {
-			return // declared inside
+			// declared inside the loop: per-iteration variable — unless it is declared by the Init statement of a
+			// three-clause for loop, in which case it lives across iterations and must be havocked
+			if fs, ok := n.(*ast.ForStmt); !ok || fs.Init == nil || !(v.Pos() >= fs.Init.Pos() && v.Pos() <= fs.Init.End()) {
+				return
+			}
 		}
 		if !seen[v] {
 			seen[v] = true
